@@ -64,6 +64,10 @@ func shouldIgnoreAttr(key string) bool {
 	case "v-if", "v-keep", "v-else-if", "v-else", "v-for", "v-pre", "v-html", "v-text", "v-show", "v-once", "v-once-id", "data-v-html-content", "data-v-text-content":
 		return true
 	}
+	// v-slot, v-slot:name and the #name shorthand (documented directives) on any element
+	if key == "v-slot" || strings.HasPrefix(key, "v-slot:") || strings.HasPrefix(key, "#") {
+		return true
+	}
 	return false
 }
 
